@@ -63,7 +63,9 @@ manifest = {
     "checks": checks,
     "notes": "Every check is static (source is parsed, never imported or executed). Exit 0 ok / 1 VIOLATION / "
              "2 ANALYSIS-ERROR (anchor vanished or rule instance floor not met: fail closed). thorough = quick "
-             "rules + checker self-validation on in-memory mutants/twins of the current source.",
+             "rules + checker self-validation on in-memory mutants/twins of the current source. Known findings: "
+             "/verif/known_findings.json ('known' entries are printed as KNOWN-FINDING lines and do not fail the check - "
+             "currently K01 under C02; 'fixed' entries suppress nothing).",
     "not_applicable": na,
 }
 (ROOT / "MANIFEST.json").write_text(json.dumps(manifest, indent=1) + "\n")
